@@ -1382,6 +1382,45 @@ Proof.
   - exfalso. assert (SHLIM < BITS256) by (vm_compute; reflexivity). lia.
 Qed.
 
+(* the shares burned for an amount are worth the amount, up to the floor and the roundings *)
+Lemma cost_covers_amount T b amt cost : 0 < T -> 0 < b -> 0 < amt -> amt * T < b * SHLIM ->
+  calc_share T b amt = Ok cost -> amt * T <= (cost + 2) * b.
+Proof.
+  intros HT Hb Ha Hlim. unfold calc_share.
+  destruct (Z.eqb_spec T 0); [lia|]. destruct (Z.eqb_spec b 0); [lia|].
+  assert (HTq : (0 < inject_Z T)%Q) by (change 0%Q with (inject_Z 0); rewrite <- Zlt_Qlt; exact HT).
+  assert (Hbq : (0 < inject_Z b)%Q) by (change 0%Q with (inject_Z 0); rewrite <- Zlt_Qlt; exact Hb).
+  assert (Haq : (0 < inject_Z amt)%Q) by (change 0%Q with (inject_Z 0); rewrite <- Zlt_Qlt; exact Ha).
+  assert (Hx : (0 < inject_Z amt / inject_Z b)%Q) by (apply Qlt_shift_div_l; lra).
+  destruct (rnd34_pos_bounds _ Hx) as (Hr0 & _ & Hr1). set (x := (inject_Z amt / inject_Z b)%Q) in *.
+  set (r1 := rnd34 x) in *.
+  unfold dmul. assert (Hy : (0 < r1 * inject_Z T)%Q) by nra.
+  destruct (rnd34_pos_bounds _ Hy) as (Hs0 & _ & Hs1). set (r2 := rnd34 (r1 * inject_Z T)) in *.
+  destruct (trim_bounds r2 (Qlt_le_weak _ _ Hs0)) as (Ht0 & _ & Ht1).
+  unfold trim_res, trim_int. destruct (Z.abs (trim r2) <? BITS256); intros Hc; [|discriminate]. injection Hc as <-.
+  (* x * T < 10^32 *)
+  assert (HxT : (x * inject_Z T < inject_Z SHLIM)%Q).
+  { unfold x. assert (inject_Z amt / inject_Z b * inject_Z T == inject_Z amt * inject_Z T / inject_Z b)%Q as -> by (field; lra).
+    apply Qlt_shift_div_r; [exact Hbq|]. rewrite <- !inject_Z_mult, <- Zlt_Qlt. lia. }
+  assert (HxTp : (0 < x * inject_Z T)%Q) by nra.
+  assert (Hslack : (2 * eta * inject_Z SHLIM < 1)%Q) by (vm_compute; reflexivity).
+  pose proof eta_pos as Hep.
+  assert (H1 : (x * (1 - eta) * inject_Z T <= r1 * inject_Z T)%Q) by (apply Qmult_le_compat_r; lra).
+  assert (H2 : (r1 * inject_Z T * (1 - eta) <= r2)%Q) by exact Hs1.
+  assert (H3 : (x * inject_Z T * (1 - eta) * (1 - eta) <= r2)%Q).
+  { assert (Hm : (x * (1 - eta) * inject_Z T * (1 - eta) <= r1 * inject_Z T * (1 - eta))%Q).
+    { apply Qmult_le_compat_r; [exact H1|]. assert (eta < 1)%Q by reflexivity. lra. }
+    assert (x * inject_Z T * (1 - eta) * (1 - eta) == x * (1 - eta) * inject_Z T * (1 - eta))%Q as -> by ring. lra. }
+  assert (H4 : (x * inject_Z T - 1 < r2)%Q) by nra.
+  assert (H5 : (x * inject_Z T < inject_Z (trim r2 + 2))%Q).
+  { rewrite inject_Z_plus in Ht1. rewrite inject_Z_plus. change (inject_Z 1) with 1%Q in Ht1. change (inject_Z 2) with 2%Q. lra. }
+  (* back to integers *)
+  assert (H6 : (inject_Z amt * inject_Z T < inject_Z (trim r2 + 2) * inject_Z b)%Q).
+  { assert (He : (x * inject_Z T * inject_Z b == inject_Z amt * inject_Z T)%Q) by (unfold x; field; lra).
+    rewrite <- He. apply Qmult_lt_compat_r; assumption. }
+  rewrite <- !inject_Z_mult, <- Zlt_Qlt in H6. lia.
+Qed.
+
 Lemma undelegate_available_of_GI sg o u v amt rcp b :
   GI sg -> In u users -> 0 <= v -> 0 <= rcp -> 0 < amt ->
   cB (cells (fst sg) v) = Some b ->
